@@ -1,0 +1,29 @@
+//go:build verif
+
+package message
+
+import (
+	"github.com/inbucket/inbucket/v3/pkg/policy"
+)
+
+var _ policy.Recipient
+
+// Ghost call log of a Manager: how many deliveries were requested through it and the arguments of
+// the most recent one.  Changed only by the interface contract of Deliver.
+func ghost_ndeliver(m Manager) int                    { panic("ghost") }
+func ghost_dlvFrom(m Manager) *policy.Origin          { panic("ghost") }
+func ghost_dlvRcpts(m Manager) []*policy.Recipient    { panic("ghost") }
+func ghost_dlvContent(m Manager) []byte               { panic("ghost") }
+
+// Exported accessors for contracts in other packages.
+func Ghost_ndeliver(m Manager) int                 { return ghost_ndeliver(m) }
+func Ghost_dlvFrom(m Manager) *policy.Origin       { return ghost_dlvFrom(m) }
+func Ghost_dlvRcpts(m Manager) []*policy.Recipient { return ghost_dlvRcpts(m) }
+func Ghost_dlvContent(m Manager) []byte            { return ghost_dlvContent(m) }
+
+//@ iface Manager.Deliver(self Manager, from *policy.Origin, recipients []*policy.Recipient, recvdHeader string, content []byte) (err error)
+//@   requires from != nil
+//@   requires forall k int :: { recipients[k] } 0 <= k && k < len(recipients) ==> recipients[k] != nil
+//@   modifies ghost_ndeliver(self), ghost_dlvFrom(self), ghost_dlvRcpts(self), ghost_dlvContent(self)
+//@   ensures ghost_ndeliver(self) == old(ghost_ndeliver(self)) + 1
+//@   ensures ghost_dlvFrom(self) == from && vcSameSlice(ghost_dlvRcpts(self), recipients) && vcSameSlice(ghost_dlvContent(self), content)
